@@ -192,5 +192,28 @@ pub fn flat2deep_boundary<S: Src>(s: &mut S) {
     assert!(d.eval(&[1.0]).unwrap() == expect, "flat -> deep conversion of a chain of n operands preserves the value");
 }
 
-registry!("u1", flat2deep_boundary, deep_eval_boundary, eval_numbers_boundary_64, eval_numbers_boundary_65, eval_numbers_boundary_66, intrinsics_spec, word_tracker, slice_tracker_3, slice_tracker_4,
+/// native-only probe: long chains `x+x-x+x-..` of n operands (n = first two input bytes, little endian)
+/// evaluated flat (mode 0), deep (mode 1) or flat -> deep (mode 2); sizes beyond the tracker's inline
+/// capacity of 32 words (2048 operands) are reachable here and nowhere in the bounded Kani checks
+pub fn chain_sizes<S: Src>(s: &mut S) {
+    use exmex::prelude::*;
+    use exmex::DeepEx;
+    let n = s.u16() as usize;
+    let mode = s.u8() % 3;
+    s.assume(n >= 2);
+    let mut text = String::from("x");
+    let mut expect = 1.0f64;
+    for i in 1..n {
+        if i % 2 == 1 { text.push('+'); expect += 1.0; } else { text.push('-'); expect -= 1.0; }
+        text.push('x');
+    }
+    let got = match mode {
+        0 => FlatEx::<f64>::parse(&text).unwrap().eval(&[1.0]).unwrap(),
+        1 => DeepEx::<f64>::parse(&text).unwrap().eval(&[1.0]).unwrap(),
+        _ => FlatEx::<f64>::parse(&text).unwrap().to_deepex().unwrap().eval(&[1.0]).unwrap(),
+    };
+    assert!(got == expect, "a left-to-right chain of n operands reduces to the expected value");
+}
+
+registry!("u1", chain_sizes, flat2deep_boundary, deep_eval_boundary, eval_numbers_boundary_64, eval_numbers_boundary_65, eval_numbers_boundary_66, intrinsics_spec, word_tracker, slice_tracker_3, slice_tracker_4,
     eval_binary_orders_4, eval_binary_orders_6, eval_binary_orders_4_slice);
